@@ -26,6 +26,10 @@ type segSerializer struct {
 	order []uint64
 	next  int
 	on    bool
+	gen   int // arm generation, for the watchdog
+	// timeouts counts searches whose goroutines did not arrive in the announced order within the
+	// watchdog period (e.g. two live segments carrying one id): the serializer then lets everything run
+	timeouts int
 }
 
 func newSegSerializer() *segSerializer {
@@ -55,7 +59,18 @@ func (s *segSerializer) handler(name string, args ...uint64) {
 func (s *segSerializer) arm(order []uint64) {
 	s.mu.Lock()
 	s.order, s.next, s.on = order, 0, true
+	s.gen++
+	g := s.gen
 	s.mu.Unlock()
+	time.AfterFunc(10*time.Second, func() {
+		s.mu.Lock()
+		if s.on && s.gen == g {
+			s.on = false
+			s.timeouts++
+			s.cond.Broadcast()
+		}
+		s.mu.Unlock()
+	})
 }
 func (s *segSerializer) disarm() {
 	s.mu.Lock()
